@@ -2598,6 +2598,41 @@ fn main() {
             println!("first_bad={}", verdict);
             std::process::exit(0);
         }
+        // filter_block_layout <offset>:<keys> ... : data blocks at these offsets with this many keys each, Bloom policies of 1, 10 and 64 bits per key
+        "filter_block_layout" => {
+            let (mut keys, mut rejected, mut first) = (0usize, 0usize, String::new());
+            for bits in [1usize, 10, 64] {
+                let blocks: Vec<(usize, Vec<Vec<u8>>)> = a[1..]
+                    .iter()
+                    .enumerate()
+                    .map(|(i, spec)| {
+                        let p: Vec<&str> = spec.split(':').collect();
+                        (num(p[0]) as usize, (0..num(p[1])).map(|j| format!("b{}k{}", i, j).into_bytes()).collect())
+                    })
+                    .collect();
+                let policy: std::sync::Arc<dyn raindb::FilterPolicy> = std::sync::Arc::new(raindb::BloomFilterPolicy::new(bits));
+                match v::filter_block_answers(policy, &blocks) {
+                    Some(ans) => {
+                        keys += ans.len();
+                        rejected += ans.iter().filter(|x| !**x).count();
+                        if first.is_empty() {
+                            if let Some(p) = ans.iter().position(|x| !*x) {
+                                first = format!("answer {} ({} bits per key)", p, bits);
+                            }
+                        }
+                    }
+                    None => {
+                        rejected += 1;
+                        if first.is_empty() {
+                            first = "the reader rejects the filter block".to_string();
+                        }
+                    }
+                }
+            }
+            println!("keys={}", keys);
+            println!("rejected={}", rejected);
+            println!("first_rejected={}", first);
+        }
         // cache_ids : eight threads draw 50000 block-cache ids each from the default block cache; ids must be unique
         "cache_ids" => {
             let o = raindb::DbOptions::with_memory_env();
